@@ -339,7 +339,20 @@ func (c *Case) Render(o RenderOpts) string {
 				sb.WriteString(" { " + a + " }")
 			}
 		}
-		sb.WriteString(" ;\n")
+		// the ';' after a rule is optional in yacc: a third of the cases leave it out after the last rule,
+		// another third everywhere (chosen by the case's name, so a case always renders the same way)
+		semi := true
+		switch idHash(c.ID) % 3 {
+		case 1:
+			semi = i+1 < len(c.Rules)
+		case 2:
+			semi = false
+		}
+		if semi {
+			sb.WriteString(" ;\n")
+		} else {
+			sb.WriteString("\n")
+		}
 	}
 	sb.WriteString("%%\n")
 	sb.WriteString(o.Epilogue)
@@ -1113,4 +1126,12 @@ func GenTrie(r *rand.Rand, id string) *Case {
 		c.Rules = append(c.Rules, Rule{Lhs: "S", Rhs: w})
 	}
 	return c
+}
+
+func idHash(s string) int {
+	h := 0
+	for _, ch := range s {
+		h = (h*31 + int(ch)) % 1000003
+	}
+	return h
 }
